@@ -269,8 +269,9 @@ def _r4(ctx):
     ctx.floor("R4", 10)
 
 
-PROBE = {1: "101", 2: "26", 4: "56", 6: "6.5", 11: "11.5", 13: "y", 14: "14.5", 15: "15.5", 16: "16.5",
-         17: "17.5", 19: "19.5", 20: "20.5", 21: "21.5"}
+# (numeric cells in the notations the real table uses: plain decimals, exponents with a sign, upper- and lower-case E)
+PROBE = {1: "101", 2: "26", 4: "56", 6: "6.5", 11: "11.5", 13: "y", 14: "1.45E+01", 15: "15.5", 16: "165E-01",
+         17: "17.5", 19: "1.95e+01", 20: "20.5", 21: "2.15E-03"}
 
 
 def _r5(ctx):
